@@ -7,7 +7,7 @@ EXTENDS ServiceAPI, Json, IOUtils
 
 TraceLog == ndJsonDeserialize(IOEnv.VERIF_TRACE)
 Strict == IOEnv.VERIF_STRICT = "1"
-Collect == IOEnv.VERIF_COLLECT = "1"   \* list every unexplained line (DRIFT) instead of stopping at the first
+Collect == "VERIF_COLLECT" \in DOMAIN IOEnv /\ IOEnv.VERIF_COLLECT = "1"   \* list every unexplained line (DRIFT) instead of stopping at the first
 
 VARIABLE l
 tvars == <<vars, l>>
